@@ -14,6 +14,10 @@
 (*   does_exist / open: path_for(cfg, kind, name) is present               *)
 (*   cleanup of a dead node: remove path_for(cfg, node, id) for every      *)
 (*            listed dead id                                               *)
+(*   kind "shm": the concepts that are POSIX shared memory objects (dynamic *)
+(*            config, data segments, connections, event state, ...) live   *)
+(*            in ONE system-wide directory - the path hint is ignored - as  *)
+(*            prefix o name o suffix: for them a domain is its prefix      *)
 (* Strings are sequences of one-character strings.  Two configurations     *)
 (* (root, prefix) are chosen from Configs; every file remembers which      *)
 (* configuration created it (ghost `owner`).                               *)
@@ -24,6 +28,11 @@
 (*   Isolation   nothing created under configuration A is returned by a    *)
 (*               listing or an existence check, or removed by a cleanup,   *)
 (*               under a configuration B # A                               *)
+(*   ShmIsolation  the same for the shared memory objects of two           *)
+(*               configurations with DIFFERENT prefixes (with the same     *)
+(*               prefix and different roots they are shared at the cal     *)
+(*               level; iceoryx2 reaches them only through the names       *)
+(*               stored in the static configuration files under the root)  *)
 (***************************************************************************)
 EXTENDS Naturals, Sequences, FiniteSets
 
@@ -42,9 +51,9 @@ vars == <<cA, cB, files, dead, breach>>
 Digits == {"0", "1", "2", "3", "4", "5", "6", "7", "8", "9"}
 Hex == Digits \cup {"a", "b", "c", "d", "e", "f"}
 
-Suffix(kind) == IF kind = "node" THEN <<".", "n">> ELSE <<".", "s">>
+Suffix(kind) == IF kind = "node" THEN <<".", "n">> ELSE IF kind = "shm" THEN <<".", "d">> ELSE <<".", "s">>
 SubDir(kind) == IF kind = "node" THEN "nodes" ELSE "services"
-Dir(c, kind) == <<c.root, SubDir(kind)>>
+Dir(c, kind) == IF kind = "shm" THEN <<"/dev/shm", "">> ELSE <<c.root, SubDir(kind)>>
 
 HasPrefix(s, p) == Len(s) >= Len(p) /\ \A i \in 1..Len(p) : s[i] = p[i]
 HasSuffix(s, p) == Len(s) >= Len(p) /\ \A i \in 1..Len(p) : s[Len(s) - Len(p) + i] = p[i]
@@ -103,27 +112,34 @@ Cleanup(c) ==
 
 CreateNode == \E c \in Cfgs, n \in NodeIds : Create(c, "node", n)
 CreateService == \E c \in Cfgs, h \in Hashes : Create(c, "service", h)
+CreateShm == \E c \in Cfgs, h \in Hashes : Create(c, "shm", h)
 Kill == \E c \in Cfgs, n \in NodeIds : Die(c, n)
 CleanupDead == \E c \in Cfgs : Cleanup(c)
 
-Next == CreateNode \/ CreateService \/ Kill \/ CleanupDead
+Next == CreateNode \/ CreateService \/ CreateShm \/ Kill \/ CleanupDead
 
 Spec == Init /\ [][Next]_vars
 
 Kinds2 == {"node", "service"}
 
+Kinds3 == {"node", "service", "shm"}
+
 RoundTrip ==
-    \A c \in Cfgs, k \in Kinds2 :
+    \A c \in Cfgs, k \in Kinds3 :
         /\ \A n \in Created(c, k) : n \in Listing(c, k) /\ Exists(c, k, n)
         /\ \A n \in (IF k = "node" THEN NodeIds ELSE Hashes) : Extract(c, k, FileFor(c, k, n)) = n
 
 \* a listing / existence check under c only reports what c created
-Isolation ==
-    /\ breach = "none"
-    /\ \A c \in Cfgs, k \in Kinds2 :
+IsolatedKind(c, k) ==
         /\ \A n \in Listing(c, k) : \E f \in files : f.owner = c /\ f.dir = Dir(c, k) /\ f.file = FileFor(c, k, n)
         /\ \A f \in files : (f.dir = Dir(c, k) /\ f.owner # c) =>
                ~(\E n \in (IF k = "node" THEN NodeIds ELSE Hashes) : f.file = FileFor(c, k, n))
+Isolation ==
+    /\ breach = "none"
+    /\ \A c \in Cfgs, k \in Kinds2 : IsolatedKind(c, k)
+ShmIsolation == cA.prefix # cB.prefix => \A c \in Cfgs : IsolatedKind(c, "shm")
+\* (refuted by TLC when the guard is dropped: same prefix, different roots - the documented limit of path_hint)
+ShmIsolationUnguarded == \A c \in Cfgs : IsolatedKind(c, "shm")
 
 \* the configuration class for which the naming scheme is ambiguous: same root and one prefix is
 \* the other one extended by characters that are valid in a node id
